@@ -22,7 +22,7 @@ RULE = ("constructors on complete angle grids (multiples of pi/12 from -2pi to 4
 ASSUMPTIONS = ["Rodrigues convention: U is the transpose of the active right-handed rotation about r by 2 atan|r| (the library's passive sense)",
                "rebuild tolerance 1e-6 as stated by the property; constructor tolerance 1e-12", "rotation angles within 1e-6 of 180 degrees are excluded for u_to_rod"]
 
-EXTRA = [1e-9, -1e3, 12345.678]
+EXTRA = [1e-9, -1e3, 12345.678, 1e5, -3e8, 1e12]  # numpy reduces large arguments exactly: a correct constructor stays at 1e-16 for them
 LADDER = [0.0, 1e-9, -1e-7, 1e-6, 6e-5, -4e-5, 1e-4, -1e-3, 1e-2, 0.3, -2.0]
 
 
@@ -186,7 +186,7 @@ def check_case(case):
                 M = getattr(mod, fname)(*args)
                 R = ref()
                 if proper(r, M, key, tol=1e-11 if abs(a) > 100 else 1e-12):
-                    r.check("ctor", float(np.max(np.abs(M - R))), 1e-9 if abs(a) > 100 else 1e-12, key, "%s equals the documented composition" % fname, R, M)
+                    r.check("ctor", float(np.max(np.abs(M - R))), 1e-11 if abs(a) > 100 else 1e-12, key, "%s equals the documented composition" % fname, R, M)
                 r.nontrivial.add("%s:%r" % (fname, args))
         r.states = len(A) ** 2 * 3
     elif k == "euler":
@@ -292,7 +292,7 @@ def check_case(case):
         # must return the documented composition for negative angles and angles beyond 2pi as well.
         import xfab
 
-        A = [k_ * math.pi / 6 for k_ in range(-6, 19, 3)] + [0.1, -0.1, 7.0, -1e3, 12345.678]
+        A = [k_ * math.pi / 6 for k_ in range(-6, 19, 3)] + [0.1, -0.1, 7.0, -1e3, 12345.678, 1e8, -1e12]
         xfab.CHECKS.activated = False
         try:
             for p1, P, p2 in itertools.product(A, repeat=3):
@@ -306,7 +306,7 @@ def check_case(case):
                 R = euler_ref(p1, P, p2)
                 big = max(abs(p1), abs(P), abs(p2)) > 100
                 if proper(r, M, key, tol=1e-11 if big else 1e-12):
-                    r.check("ctor", float(np.max(np.abs(M - R))), 1e-9 if big else 1e-12, key, "euler_to_u = Rz(phi1)Rx(PHI)Rz(phi2) for all real angles (switch off)", R, M)
+                    r.check("ctor", float(np.max(np.abs(M - R))), 1e-11 if big else 1e-12, key, "euler_to_u = Rz(phi1)Rx(PHI)Rz(phi2) for all real angles (switch off)", R, M)
                 r.nontrivial.add("off:euler:%r,%r,%r" % (p1, P, p2))
             for q, R in alph.quat_rots(1)[:20]:
                 chain(r, mod, R, "%s:checks-off:U=quat%s" % (mname, q))
@@ -321,6 +321,18 @@ def check_case(case):
                 for pos in range(3):
                     variants(r, "%s:%s%r" % (mname, fname, ia), getattr(mod, fname), list(ia), pos, t12, t6)
             variants(r, "%s:form_omega_mat(%r)" % (mname, ia[0]), mod.form_omega_mat, [ia[0]], 0, t12, t6)
+        # values exactly representable in single precision and used nowhere else in this process, passed in LOW precision first: the
+        # float64 call that follows is judged against the harness's composition (a memo keyed on the angle's value would serve it the
+        # single-precision matrix)
+        for ia in ((1.4375, 0.71875, 2.109375), (5.0625, 3.03125, 0.265625), (1000.0, 0.5, 6.0)):
+            refs = {"euler_to_u": euler_ref(*ia) if max(ia) < 7 else None, "form_omega_mat_general": Rx(ia[1]) @ Ry(ia[2]) @ Rz(ia[0]), "detect_tilt": Rx(ia[0]) @ Ry(ia[1]) @ Rz(ia[2]),
+                    "quart_to_omega": (Rx(ia[1]) @ Ry(ia[2])) @ Rz(math.radians(ia[0])) @ (Rx(ia[1]) @ Ry(ia[2])).T}
+            for fname, ref in refs.items():
+                if ref is None:
+                    continue
+                for pos in range(3):
+                    variants(r, "%s:%s%r" % (mname, fname, ia), getattr(mod, fname), list(ia), pos, t12, t6, oracle=ref)
+            variants(r, "%s:form_omega_mat(%r)" % (mname, ia[0] + 0.015625), mod.form_omega_mat, [ia[0] + 0.015625], 0, t12, t6, oracle=Rz(ia[0] + 0.015625))
         for iv in ((1.0, 2.0, 3.0), (0.0, 0.0, 2.0), (0.25, -0.5, 0.125), (0.0, 0.0, 0.0)):
             variants(r, "%s:rod_to_u(%r)" % (mname, iv), mod.rod_to_u, [list(iv)], 0, t12, t6)
         for q, R in alph.quat_rots(1)[:14]:
